@@ -14,9 +14,9 @@ import (
 // reject that, legitimately).
 
 var words = []string{
-	"alpha", "beta", "gamma", "delta", "item", "node", "decl", "stmt", "expr", "name", "value", "list", "block",
+	"alpha", "beta", "gamma", "delta", "item", "knot", "decl", "stmt", "expr", "name", "worth", "list", "block",
 	"entry", "pair", "elem", "term", "atom", "unit", "field", "member", "clause", "group", "scope", "label",
-	"arg", "param", "body", "head", "tail", "kind", "mode", "ref", "path", "key", "attr", "prop", "spec", "part",
+	"arg", "param", "body", "head", "tail", "kind", "mode", "ref", "route", "key", "attr", "prop", "spec", "part",
 	"q", "w", "zz", "ab", "io",
 }
 
